@@ -954,11 +954,6 @@ theorem qualsLines_length (qs : List (Str × Str)) (lq : List (List Nat)) (sts :
     have := ihq lq.tail sts.tail
     simp only [List.length_cons, List.length_append]; omega
 
-/-- a feature as the parser's map keeps it: of several qualifiers with one key the last value wins
-(in the place of the first) -/
-def toFeatureM (f : RFeature) : Feature :=
-  { type := f.key, gbkLoc := f.loc, attrs := f.quals.foldl (fun m q => mapInsert m q.1 q.2) [] }
-
 theorem toFeatureM_eq {f : RFeature} (hd : distinct (f.quals.map (·.1)) = true) : toFeatureM f = toFeature f := by
   have := foldl_mapInsert f.quals [] hd (by simp)
   simp only [List.nil_append] at this
